@@ -3,9 +3,14 @@
 from harness import runner
 
 
-def _graph_layer_check(ctx, prefixes, what):
+def _graph_layer_check(ctx, prefixes, what, corpora=('graph', 'graphcc')):
     from harness import layer_graph
-    res = runner.memo('graph', ctx, lambda: layer_graph.run(ctx))
+    parts = []
+    if 'graph' in corpora:
+        parts.append(runner.memo('graph', ctx, lambda: layer_graph.run(ctx)))
+    if 'graphcc' in corpora:
+        parts.append(runner.memo('graphcc', ctx, lambda: layer_graph.run_cc(ctx)))
+    res = parts[0] if len(parts) == 1 else _merge(parts)
     viol = []
     for f in res['fails']:
         mine = [c for c in f['fails'] if c[0].split('.')[0] in prefixes]
@@ -26,6 +31,33 @@ def _graph_layer_check(ctx, prefixes, what):
                             'harness/build.py and project.py only translate (no semantics)',
                             'descriptions in which an incompatible pair is joined by a direct derivation edge are outside '
                             'the generated families', 'TLC, CommunityModules Json']}
+
+
+def _merge(parts):
+    out = dict(parts[0])
+    for p in parts[1:]:
+        for k in ('n_traces', 'states', 'transitions', 'n_events', 'nontrivial', 'adm_total', 'truncated', 'n_graphs'):
+            out[k] = out[k] + p[k]
+        out['fails'] = out['fails'] + p['fails']
+        out['samples'] = out['samples'] + p['samples'][:1]
+        for k in ('features', 'drift'):
+            d = dict(out[k])
+            for kk, v in p[k].items():
+                d[kk] = d.get(kk, 0) + v
+            out[k] = d
+    return out
+
+
+def check_C11(ctx):
+    res = _graph_layer_check(ctx, {'C11'}, 'graph level: offered connection sets = valid sets for the connectors present, validation, '
+                                           'application; scenarios never lost', corpora=('graphcc',))
+    pr = _proc_layer_check(ctx, {'C11'}, 'processor level: decoded connection edges valid for the scenario, scenarios with a valid set '
+                                         'never lost, scenarios without one never decoded to')
+    res['violations'] += pr['violations']
+    res['coverage']['processor_level'] = {k: pr['coverage'][k] for k in ('descriptions', 'decodes', 'encoders', 'features')}
+    for k in ('states', 'transitions', 'traces_validated_against_impl', 'evaluations'):
+        res['coverage'][k] += pr['coverage'][k]
+    return res
 
 
 def check_C02(ctx):
@@ -143,7 +175,7 @@ def check_C10(ctx):
     return _coding_check(ctx, 'C10.', 'faithful, total, onto coding; listed vectors; used values')
 
 
-CHECKS = {'C09': check_C09, 'C10': check_C10, 'C01': check_C01, 'C02': check_C02, 'C03': check_C03, 'C04': check_C04, 'C06': check_C06,
+CHECKS = {'C11': check_C11, 'C09': check_C09, 'C10': check_C10, 'C01': check_C01, 'C02': check_C02, 'C03': check_C03, 'C04': check_C04, 'C06': check_C06,
           'C07': check_C07, 'C14': check_C14, 'C16': check_C16}
 
 
